@@ -41,7 +41,9 @@ KnownType(t) == t \in {"login", "login-ipr", "dronecheck", "combined"}
 \*   c.cfg   = [svcs |-> sequence of [name, type], required |-> set of data items, timeout |-> BOOLEAN]
 \*   c.cl    = function: live client id -> client record
 \*   c.tags  = every routing tag ever seen on a query (tags identify instances, so they never repeat)
-CInit(cfg) == [cfg |-> cfg, cl |-> <<>>, tags |-> {}]
+\*   c.gens  = function: client id -> number of times the server has announced it
+CInit(cfg) == [cfg |-> cfg, cl |-> <<>>, tags |-> {}, gens |-> <<>>]
+GenOf(c, i) == IF i \in DOMAIN c.gens THEN c.gens[i] ELSE 0
 
 NewClient(e) ==
     [addr |-> e.addr, port |-> e.port, atext |-> "",
@@ -49,7 +51,7 @@ NewClient(e) ==
      host |-> Nil, ident |-> Nil, cliuser |-> Nil, clitilde |-> FALSE, nick |-> Nil, real |-> Nil,
      cred |-> Nil, hide |-> FALSE, bang |-> FALSE,
      sent |-> {}, owes |-> {}, chal |-> {}, okd |-> {},
-     acct |-> Nil, expired |-> FALSE, tag |-> "", ndone |-> 0]
+     acct |-> Nil, expired |-> FALSE, tag |-> "", ndone |-> 0, gen |-> 0]
 
 SvcNames(c) == {c.cfg.svcs[n].name : n \in 1..Len(c.cfg.svcs)}
 TypeOf(c, s) == LET ns == {n \in 1..Len(c.cfg.svcs) : c.cfg.svcs[n].name = s}
@@ -109,7 +111,12 @@ CStep(c, e, o, n) ==
     LET
     \* ---- who is this step about -------------------------------------------------------------
     isReply == e.e = "X"
-    addressed == IF isReply THEN {i \in DOMAIN c.cl : c.cl[i].tag # "" /\ c.cl[i].tag = e.tag} ELSE {}
+    \* a reply is addressed to a live instance when it carries that instance's tag; where the environment says which
+    \* instance it means (ti / tn: client id and announcement number, added by the driver from the model's tag), a reply
+    \* meant for a departed instance is NOT addressed to a newcomer even if the daemon re-used the tag text
+    addressed == IF isReply THEN {i \in DOMAIN c.cl : /\ c.cl[i].tag # "" /\ c.cl[i].tag = e.tag
+                                                    /\ ("tn" \notin DOMAIN e \/ (e.ti = i /\ e.tn = c.cl[i].gen))}
+                 ELSE {}
     awaited == isReply /\ addressed # {} /\ e.kind # "JUNK"
                /\ e.svc \in c.cl[CHOOSE i \in addressed : TRUE].owes
     tgt == IF isReply THEN (IF awaited THEN CHOOSE i \in addressed : TRUE ELSE -1)
@@ -118,7 +125,7 @@ CStep(c, e, o, n) ==
            ELSE IF e.id \in DOMAIN c.cl THEN e.id ELSE -1
     stray == isReply /\ ~awaited
     \* ---- state after the input line, before looking at the output -----------------------------
-    x0 == IF e.e = "C" THEN NewClient(e) ELSE IF tgt # -1 THEN c.cl[tgt] ELSE NewClient([addr |-> Nil, port |-> 0])
+    x0 == IF e.e = "C" THEN [NewClient(e) EXCEPT !.gen = GenOf(c, e.id) + 1] ELSE IF tgt # -1 THEN c.cl[tgt] ELSE NewClient([addr |-> Nil, port |-> 0])
     pwmore == e.e = "P" /\ tgt # -1 /\ x0.chal # {} /\ x0.cred # Nil
     pwok == e.e = "P" /\ tgt # -1 /\ ~pwmore /\ e.shape = "ok"
     netSetX == pwok /\ \E k \in 1..Len(e.modes) : e.modes[k] = "x"
@@ -192,15 +199,24 @@ CStep(c, e, o, n) ==
     chals == SelectSeq(cms, LAMBDA m : m.k = "C")
     modes == SelectSeq(cms, LAMBDA m : m.k = "M")
     others == SelectSeq(cms, LAMBDA m : m.k \notin {"D", "R", "k", "d", "C", "M", "U"})
+    \* class clause of C05 (the rule semantics themselves are C11, spec ClassRules.tla): with the probe rule table
+    \*   "<ra>" { account "?*"; class <cfg.cls.acct> }   "<rz>" { class <cfg.cls.none> }
+    \* configured (cfg.cls.on), an accepted client with a stamp is in class cfg.cls.acct, one without in cfg.cls.none
+    clsOn == "cls" \in DOMAIN c.cfg /\ c.cfg.cls.on
+    clsOK(m) == ~clsOn \/ m.cls = (IF x4.acct # Nil THEN c.cfg.cls.acct ELSE c.cfg.cls.none)
     acceptOK == IF mustAccept
                 THEN /\ Len(accepts) = 1
                      /\ IF x4.acct # Nil
                         THEN accepts[1].k = "R" /\ accepts[1].acct = Cut(x4.acct, ACCOUNTLEN)
                         ELSE accepts[1].k = "D"
+                     /\ clsOK(accepts[1])
                 ELSE accepts = <<>>
     killOK == IF refused THEN Len(kills) = 1 /\ kills[1].text = e.text
               ELSE kills = <<>>
-    modeOK == IF stamping /\ (x3.hide \/ x3.bang) THEN Len(modes) = 1 /\ modes[1].modes = "+x"
+    \* "+x is sent when such a client asked for host hiding": required when the client asked for +x; the code
+    \* also hides a client that asked for +! only - the property does not decide that case, so it is permitted
+    modeOK == IF stamping /\ x3.hide THEN Len(modes) = 1 /\ modes[1].modes = "+x"
+              ELSE IF stamping /\ x3.bang THEN Len(modes) <= 1 /\ \A k \in 1..Len(modes) : modes[k].modes = "+x"
               ELSE modes = <<>>
     chalOK == IF awaited /\ e.kind \in {"AGAIN", "MORE"} THEN Len(chals) = 1 /\ chals[1].text = e.text
               ELSE IF awaited /\ e.kind = "UNL" THEN Len(chals) <= 1
@@ -235,12 +251,20 @@ CStep(c, e, o, n) ==
            ELSE IF ended THEN [i \in DOMAIN c.cl \ {tgt} |-> c.cl[i]]
            ELSE [i \in DOMAIN c.cl \cup {tgt} |-> IF i = tgt THEN x5 ELSE c.cl[i]]
     cfg2 == IF e.e = "RL" THEN [c.cfg EXCEPT !.svcs = e.svcs] ELSE c.cfg
-    c2 == [cfg |-> cfg2, cl |-> cl2, tags |-> c.tags \cup obsTags]
+    gens2 == IF e.e = "C" THEN [i \in DOMAIN c.gens \cup {e.id} |-> IF i = e.id THEN GenOf(c, i) + 1 ELSE c.gens[i]]
+             ELSE c.gens
+    c2 == [cfg |-> cfg2, cl |-> cl2, tags |-> c.tags \cup obsTags, gens |-> gens2]
+    \* nothing names a client that is not live: every client-directed line is for an id that was live before the step
+    \* (or is being announced), and no query carries the tag of a departed instance
+    liveBefore == DOMAIN c.cl \cup (IF e.e = "C" THEN {e.id} ELSE {})
+    liveTags == {c.cl[i].tag : i \in DOMAIN c.cl}
+    deadOK == /\ \A k \in 1..Len(cms) : cms[k].id \in liveBefore
+              /\ \A k \in 1..Len(xs) : xs[k].tag \notin (c.tags \ liveTags)
     \* a stray reply, a junk line or a line for an unknown client must have no effect at all
     silent == stray \/ e.e = "RL" \/ (tgt = -1 /\ e.e \notin {"J", "QC"})
     \* ---- verdict ---------------------------------------------------------------------------------
     viol ==
-        (IF verdictCount /\ softOK /\ lastOK /\ goneOK /\ (accepts # <<>> \/ kills # <<>> => tgt # -1) THEN {} ELSE {"P01_once"})
+        (IF verdictCount /\ softOK /\ lastOK /\ goneOK /\ deadOK /\ (accepts # <<>> \/ kills # <<>> => tgt # -1) THEN {} ELSE {"P01_once"})
         \cup (IF mustAccept \/ accepts = <<>> THEN {} ELSE {"P02_gate"})
         \cup (IF ~mustAccept \/ Len(accepts) >= 1 THEN {} ELSE {"P03_prompt"})
         \cup (IF stray => (o = <<>>) THEN {} ELSE {"P04_stray"})
